@@ -233,6 +233,9 @@ func (b *bare) run(in Input) (obs Obs) {
 		for _, h := range op.Slow {
 			rec.SetSlow(h, i, slowDelay)
 		}
+		for _, h := range op.Slower {
+			rec.SetSlow(h, i, 4*slowDelay)
+		}
 		rec.add(Rec{Kind: "O"})
 		var opErr error
 		done := make(chan struct{})
